@@ -10,10 +10,10 @@ import Ctrmml.Model.MdsCodec
 namespace Ctrmml.Fragment
 open Ctrmml Ctrmml.Tree Ctrmml.Expand Ctrmml.Mds Tables
 
-/-- no pitch envelope on, notes (and, in drum mode, routine numbers) inside the MDSDRV range -/
+/-- notes (and, in drum mode, routine numbers) inside the MDSDRV range (pitch envelopes are inside the
+fragment since round 5) -/
 def simpleEvB (e : Event) : Bool :=
-  (e.type != ev_NOTE || (decide (0 ≤ e.param) && decide (e.param < 94))) &&
-  (e.type != ev_PITCH_ENVELOPE || e.param == 0)
+  (e.type != ev_NOTE || (decide (0 ≤ e.param) && decide (e.param < 94)))
 
 /-- on/off times as the MML front end sets them -/
 def timedB (e : Event) : Bool :=
@@ -150,5 +150,21 @@ def routineNotesOutsideLoops (song : Song) (root : List Event) : Bool :=
       match song.track? (trackIdOfParam p) with
       | none => true
       | some tevs => match firstNoteDepth 0 tevs with | some (_ + 1) => false | _ => true
+
+/-! ### optimised songs
+
+The song-side hypotheses of `C01_optimize_preserves` on the ORIGINAL song, as the optimised-song
+theorems of C02/C03 (`C02_optimised_song_roundtrip_nodrum_partial`) take them, transcribed as an
+executable predicate for the judge: ids ascending and below 32767, no `END` event, breaks without
+duration, fewer than 32767 events per track (`SongWF`), every track's expansion defined (`okTrack`),
+the subroutine ids the passes allocate stay within `int16_t` (`initialSubId + passes < 32768`; the
+judge passes `initialSubId` and the number of passes of the optimiser model's run), no `DRUM_MODE`
+event anywhere (`NoDrumSong`). -/
+def optOriginalB (song : Song) (initialSubId : Int) (passes : Nat) : Bool :=
+  sortedB (song.tracks.map (·.1)) &&
+  (song.tracks.all fun p => decide (p.1 < 32767) && decide (p.2.length < 32767) &&
+    (p.2.all fun e => e.kind != .fin && (e.type != ev_LOOP_BREAK || (e.on == 0 && e.off == 0)) && e.type != ev_DRUM_MODE) &&
+    (match perf song p.2 with | .ok _ => true | .error _ => false)) &&
+  decide (initialSubId + (passes : Int) < 32768)
 
 end Ctrmml.Fragment
